@@ -116,6 +116,23 @@ def run(ctx):
         it["mk"] = iso_filter(gx, gy, p, t % 60 == 0)
         items.append(it)
     mgh.validate(ctx, items, "V-relabelled copies (6..12 vertices, relabelling verified by TLC)", "C17")
+    # "valid brackets of the same distance" where the lower-bound machinery actually decides something: many sparse pairs under random
+    # containers are run through the code; those whose lower bound was raised ABOVE the trivial bound go to the exact oracle
+    items = []
+    def focused(gx, gy):
+        DXh, DYh = mgh.dist_matrix(*gx), mgh.dist_matrix(*gy)
+        triv = max(abs(max(map(max, DXh)) - max(map(max, DYh))), int(gx[0] != gy[0]))
+        def mk(res):
+            c = mgh.pair_case(gx, gy, res, True, algo=False)
+            return [c] if (c["raised"] or not c["halfint"] or c["lb2"] > triv) else []
+        return mk
+    for t in range(2500 if quick else 30000):
+        nx, ny = rng.randint(4, 8), rng.randint(4, 8)
+        gx, gy = (nx, mgh.rand_connected(rng, nx, rng.choice(["tree", "sparse", "star", "path", "lollipop"]))), (ny, mgh.rand_connected(rng, ny, rng.choice(["tree", "sparse", "star", "path"])))
+        it = mgh.mk_pair_item(gx, gy, rng.choice(mgh.REPRS), rng.choice(mgh.REPRS), seed=rng.randrange(1000), order=[0, 0], exact=True, owner="C17", hook=False)
+        it["mk"] = focused(gx, gy)
+        items.append(it)
+    mgh.validate(ctx, items, "V-focused (lower bound above the trivial bound, random containers)", "C17")
     # disconnected graphs
     groups = []
     for t in range(60 if quick else 600):
